@@ -63,6 +63,24 @@ theorem generated_sequence_crash_atomic (old new : Str) :
   rw [write_sequence_atomic.1]
   exact ⟨atomicSeq_visible old new none, atomicSeq_durable old new⟩
 
+/-- the errors of WriteString, Sync and Rename are assigned to the function's `err` (not to a
+    shadowing variable, not dropped), so the test guarding the rename sees them:
+    the `checked = true` flow of `Conf.storeProtocol` (`C18.write_faults_safe`) -/
+theorem store_errors_reach_the_guard :
+    (["WriteString", "Sync", "Rename"].all fun c =>
+      storeErrBindings.any (fun b => b.1 == c) && storeErrBindings.all (fun b => b.1 != c || b.2 == "assign")) = true := by
+  decide
+
+/-- the whole map is only ever replaced with the write lock held and refilled before that lock
+    is released (one critical section: `C18.no_torn_read` for `.clear :: stores`; two sections
+    give `C18.finding_reset_gap`) -/
+theorem map_replaced_and_refilled_in_one_section :
+    mapReplacements.all (fun r => r.2.1 == .w && r.2.2) = true := by decide
+
+/-- reload takes the file's stamp once, before it reads the file, and never again
+    (`Conf.reloadRacing false`; a stamp taken after the read gives `C18.finding_stamp_after_read`) -/
+theorem stamp_taken_before_read : statCallsInReload = 1 ∧ stampRecordedBeforeRead = true := by decide
+
 /-- D44: no properties.Must* call (their error handler terminates the process) -/
 theorem no_must_load : mustLoadCalls = [] := by decide
 
